@@ -202,6 +202,14 @@ pub mod verif {
                 .map_err(|err| format!("Failed to execute command: {err}"))
         }
 
+        /// Parse one input line without executing it (for lines that would start a search).
+        pub fn parse_only(line: &str) -> Result<(), String> {
+            let fields: Vec<_> = line.trim().split_whitespace().collect();
+            UCICommand::new(&fields)
+                .map(|_| ())
+                .map_err(|err| format!("Failed to parse command: {err}"))
+        }
+
         pub const fn board(&self) -> &Board {
             &self.uci.board
         }
